@@ -488,6 +488,16 @@ def generate(rng, tier, index):
     if plan["app_registry"]:
         for t_ in plan["types"] + comp_types:
             t_["dt"] = "zc-int"
+    # the application keeps ONE SchemaLoader and has loaded another schema
+    # (the same text under another URL: same schema-level imports) through
+    # it before this one: what a component contributes to a schema does not
+    # depend on which schemas the loader has served before
+    plan["sibling_first"] = rng.random() < 0.25
+    for pname_ in sorted(plan["packages"]):
+        # a package spread over several places, the component in the last
+        if plan["packages"][pname_].get("is_package") \
+                and rng.random() < 0.15:
+            plan["packages"][pname_]["split"] = True
     plan["explicit_file"] = rng.random() < 0.4
     for c in plan["components"].values():
         c["explicit_file"] = rng.random() < 0.4
@@ -733,6 +743,12 @@ def execute(plan):
             reg = ZConfig.datatypes.Registry()
             reg.register("zc-int", int)
             sloader = ZConfig.loader.SchemaLoader(reg)
+        if plan.get("sibling_first"):
+            sloader = sloader or ZConfig.loader.SchemaLoader()
+            sib = ops.schema_outcome(lambda: ops.load_schema_text(
+                xml, SCHEMA_URL.replace(".xml", "-sibling.xml"), sloader))
+            probe("schema-loader-served-a-sibling-schema-first")
+            sib = None
         if plan.get("schema_in_package"):
             sl_ = sloader or ZConfig.loader.SchemaLoader()
             so = ops.schema_outcome(
